@@ -195,6 +195,17 @@ class MultiStepReplayBuffer(ReplayBuffer):
         super().add(n_step_data)
         return self.n_step_buffer[0]
 
+    def reset_n_step_buffer(self) -> None:
+        """Forget the raw transitions waiting in the n-step window.
+
+        To be called when the environment is reset without a done flag (a new rollout
+        starts), so that no n-step transition is fused across the reset. The transitions
+        already stored are kept.
+        """
+        n_step_buffer = getattr(self, "n_step_buffer", None)
+        if n_step_buffer is not None:
+            n_step_buffer.clear()
+
     def sample_from_indices(self, idxs: torch.Tensor) -> TensorDict:
         """Sample a batch of transitions from the buffer using the provided indices.
 
